@@ -114,6 +114,10 @@ async fn case(run: usize, gen: &mut Gen, out: &mut Out, fixed_shards: usize, now
     if gen.rng.gen_bool(0.3) {
         step!("B", bc, set("x", ["1", "abc"][gen.rng.gen_range(0..2)]));
     }
+    // one to three transactions in a row on the same connection: what one leaves behind (queue, watch set,
+    // error flag) must not leak into the next, whichever way it ended (EXEC, nil EXEC, EXECABORT, DISCARD)
+    let rounds = [1, 1, 1, 2, 2, 3][gen.rng.gen_range(0..6)];
+    for _round in 0..rounds {
     let watch = !nowatch && gen.rng.gen_bool(0.7);
     if watch {
         // one or several watched keys, in one WATCH or in two; B writes w, x and q
@@ -176,6 +180,7 @@ async fn case(run: usize, gen: &mut Gen, out: &mut Out, fixed_shards: usize, now
     step!("A", a, (json!({"op": "GET", "k": "x"}), vec![b("GET"), b("x")]));
     if gen.rng.gen_bool(0.3) {
         step!("A", a, ctl("EXEC"));
+    }
     }
     let s = crate::shard_plain::project(&state).await;
     out.emit(&json!({"t": "txn", "run": run, "shards": shards, "wtype": wtype, "steps": steps, "s": s}));
